@@ -96,6 +96,12 @@ def main():
     st = subprocess.run("git -C /repo status --porcelain", shell=True, capture_output=True, text=True).stdout.strip()
     assert st == "", "/repo is not clean: " + st
     caught = {}
+    # the checks rewrite evidence/<id>.json: keep the clean-tree evidence and put it back afterwards
+    keep = {}
+    for c in checks:
+        ep = os.path.join(VERIF, "evidence", c + ".json")
+        if os.path.exists(ep):
+            keep[ep] = open(ep).read()
     try:
         rc, o = sh("git -C /repo apply %s" % patch)
         assert rc == 0, o
@@ -113,6 +119,8 @@ def main():
                     pass
     finally:
         subprocess.run("git -C /repo checkout -- .", shell=True)
+        for ep, txt in keep.items():
+            open(ep, "w").write(txt)
     res["checks"] = caught
     meta_out = {"breaks_property": prop, "agent_meta": meta, "confirmed_by_us": res,
                 "what_we_ran": "cargo test with the change (existing suite), demo with and without the change in a scratch worktree; "
